@@ -474,7 +474,11 @@ func (root *Root) replaceArgVars(vars map[string]interface{}, v interface{}, at 
 			}
 		}
 	case map[string]interface{}:
-		if it, _ := BaseType(at).(*Input); it != nil {
+		it, _ := at.(*Input)
+		if nn, _ := at.(*NonNull); nn != nil {
+			it, _ = nn.Base.(*Input)
+		}
+		if it != nil {
 			for k, v := range tv {
 				var vt Type
 				if f := it.fields.get(k); f != nil {
@@ -484,6 +488,12 @@ func (root *Root) replaceArgVars(vars map[string]interface{}, v interface{}, at 
 				ea = append(ea, ea2...)
 			}
 			if val, err = it.CoerceIn(val); err != nil {
+				ea = append(ea, resWarnp(nil, "%s", err))
+			}
+		} else if ic, _ := at.(InCoercer); ic != nil {
+			// Not an input object type, let the type decide whether an
+			// object is acceptable.
+			if val, err = ic.CoerceIn(val); err != nil {
 				ea = append(ea, resWarnp(nil, "%s", err))
 			}
 		}
